@@ -89,6 +89,7 @@ type zoneOut struct {
 	Trace       []string             `json:"trace,omitempty"`
 	Machinery   []string             `json:"machinery"`
 	Secs        float64              `json:"secs"`
+	Phases      [3]float64           `json:"phase_secs"`
 }
 
 type tzOut struct {
@@ -168,9 +169,13 @@ func zoneWorker(r *vk.Run, name string, withTrace bool) {
 
 	var flagged []int64
 	panicked, msg, frame := vk.Guard(func() {
+		t0 := time.Now()
 		flagged = c.phaseA(lo, hi, &out)
+		t1 := time.Now()
 		c.phaseB(lo, hi, flagged, &out)
+		t2 := time.Now()
 		c.phaseC(lo, hi, flagged)
+		out.Phases = [3]float64{t1.Sub(t0).Seconds(), t2.Sub(t1).Seconds(), time.Since(t2).Seconds()}
 		if withTrace {
 			out.Flagged = flagged
 			for _, n := range flagged {
